@@ -1260,22 +1260,28 @@ func (scratchInterceptor) WrapStreamingClient(next connect.StreamingClientFunc) 
 	}
 }
 
+// (two scratch values used in turn - double buffering - so that a message is
+// also received into a value that last held the one before the previous one)
 type scratchHandlerConn struct {
 	connect.StreamingHandlerConn
-	scratch Msg
+	scratch [2]Msg
+	n       int
 }
 
 func (c *scratchHandlerConn) Receive(m any) error {
-	return viaScratch(c.StreamingHandlerConn.Receive, &c.scratch, m)
+	c.n++
+	return viaScratch(c.StreamingHandlerConn.Receive, &c.scratch[c.n%2], m)
 }
 
 type scratchClientConn struct {
 	connect.StreamingClientConn
-	scratch Msg
+	scratch [2]Msg
+	n       int
 }
 
 func (c *scratchClientConn) Receive(m any) error {
-	return viaScratch(c.StreamingClientConn.Receive, &c.scratch, m)
+	c.n++
+	return viaScratch(c.StreamingClientConn.Receive, &c.scratch[c.n%2], m)
 }
 
 func viaScratch(receive func(any) error, scratch *Msg, m any) error {
